@@ -22,17 +22,19 @@ import sys
 import threading
 from concurrent.futures import ThreadPoolExecutor
 
-from lib import common, factory, specs, c02worker
+from lib import common, factory, specs, c02worker, hiddenstatecorr
 from lib.common import cps
 
 PROP = 'C02'
 LEVEL = 'proof'
-PROPS_MODULES = ['RTV.Props.C02']
-GEN = ['factory', 'chartables']
+PROPS_MODULES = ['RTV.Props.C02', 'RTV.Props.C02State']
+GEN = ['factory', 'chartables', 'hiddenstate']
 REQUIRED_THEOREMS = ['cache_transparent', 'recognition_pure_same_prec', 'recognition_pure', 'interleave_cache',
                      'interleave_cache_finished', 'double_construction_possible', 'decorated_prec_indep',
                      'digit_value_prec_indep', 'undecorated_prec_dependent', 'decorated_one_third',
-                     'recognition_depends_on_thread_precision']
+                     'recognition_depends_on_thread_precision',
+                     'class_state_inventory', 'module_state_inventory', 'memo_inventory', 'mutation_inventory',
+                     'settings_inventory', 'frame_pure_modulo']
 RULE = ('pool: seeded sample of the Specs model inputs (number / ordinal / percentage all cultures, age / currency / '
         'dimension / temperature, phone / ip / url / email / guid / mention / hashtag, boolean, ~150 date-time with '
         'their reference dates, date-time options 0 and 2) + fraction witnesses; disciplines a, a\', b, c, d (cold 3,16 / '
@@ -351,6 +353,11 @@ def unit_interleavings(ctx, st):
 def correspond(ctx):
     with factory.BalancedReports(ctx):
         _correspond(ctx)
+        hiddenstatecorr.correspond(ctx, build_pool(ctx))   # inventory of hidden state: run-time cross-check + history search
+
+
+def search(ctx, proof_problems):
+    hiddenstatecorr.search(ctx, proof_problems, build_pool(ctx))
 
 
 def _correspond(ctx):
